@@ -125,6 +125,10 @@ def gen_program(rng, module_mode=False):
     lines.append('')
     lines.append('')
     lines.append('if __name__ == "__main__":')
+    # is this file's own directory on the import path?  (python <script>: yes; python -m pkg.mod: no — an entry more changes what absolute
+    # imports find; how *often* it is there differs legitimately between `python x.py` and `python -m kernprof x.py` started in that directory)
+    lines.append('    import os as _os, sys as _sys')
+    lines.append('    print("own directory on sys.path:", any(_os.path.realpath(p or _os.getcwd()) == _os.path.dirname(_os.path.realpath(__file__)) for p in _sys.path))')
     for ex in exprs:
         lines.append('    print(%r, repr(%s))' % (ex[:30], ex))
     text = '\n'.join(lines) + '\n'
